@@ -110,6 +110,17 @@ def classify(parsed, mode, path):
     return None
 
 
+def d3_consistent(parsed, got, exp):
+    """is the disagreement exactly the recorded one?  (empty pieces kept in a multi binding's list, or - for typed multi
+    bindings - their conversion failing, while the model has a match)"""
+    if not exp:
+        return False
+    if got is None:
+        return any(e[0] == 'b' and e[2] in ('*', '+') and e[3] in ('int', 'float') for e in parsed[0])
+    stripped = dict((k, [x for x in v if x != ''] if isinstance(v, list) else v) for k, v in got.items())
+    return any(U.same_assignment(stripped, a) for a in exp)
+
+
 def check_pair(ctx, pattern, parsed, mode, path, br=None):
     br = br or bound(pattern, mode)
     exp = U.match(parsed, mode, path)
@@ -124,6 +135,8 @@ def check_pair(ctx, pattern, parsed, mode, path, br=None):
     nontriv = bool(exp) or got is not None
     if not ok:
         sig = classify(parsed, mode, path)
+        if sig == 'multi-binding-repeated-slash' and not d3_consistent(parsed, got, exp):
+            sig = None      # something other than the recorded empty-piece behaviour
         kind = 'missed-match' if got is None else ('spurious-match' if not exp else 'wrong-values')
         ctx.mismatch(sig or kind, 'pattern %r mode %s path %r: clastic %r, model %r' % (pattern, mode, path, got, exp[:3]),
                      {'pattern': pattern, 'mode': mode, 'path': path})
